@@ -372,6 +372,48 @@ Theorem C15_collapse_to_base_interior_edge_is_three_steps `{Sig} : forall E n ks
 Proof. exact to_base_interior_split. Qed.
 Print Assumptions C15_collapse_to_base_interior_edge_is_three_steps.
 
+(** The second of those three steps, the half-cell on the RIGHT of the edge, is the same routine called as
+    (b1r, r, b0r): the triangle is r -> b1r -> b0r -> r, so the dart in the first slot is the NEXT side and the one in
+    the third slot the previous side -- the orientation opposite to the one of the theorems above.  Mirrored variant
+    (Map2/CollapseMirror.v), on every store: when the dart in the third slot and the edge dart are 2-free, the triangle
+    disappears entirely (three darts null in every image and flagged), the 2-neighbour x of the first-slot dart becomes
+    a boundary dart, nothing else changes; and the map stays well formed. *)
+From HC Require Import Map2.CollapseMirror.
+Theorem C15_collapse_to_base_right_halfcell_removes_cell `{Sig} : forall E n ks pe e ne c w cnt w' cnt',
+  let x := beta w 2 pe in
+  NoDup [pe; e; ne; x] -> pe <> 0 -> e <> 0 -> ne <> 0 ->
+  beta w 1 e = pe -> beta w 1 pe = ne -> beta w 1 ne = e ->
+  beta w 2 ne = 0 -> beta w 2 e = 0 -> (x <> 0 -> beta w 2 x = pe) ->
+  run E (collapse_halfcell_to_base n ks pe e ne) c w cnt = (Done tt, w', cnt') ->
+  (forall i y, beta w' i y =
+     if (y =? pe) || (y =? e) || (y =? ne) then (if i <? 3 then 0 else beta w i y)
+     else if (i =? 2) && (y =? x) && negb (x =? 0) then 0
+     else beta w i y) /\
+  (forall y, unused w' y = if (y =? pe) || (y =? e) || (y =? ne) then true else unused w y).
+Proof. exact halfcell_to_base_boundary_mirror. Qed.
+Print Assumptions C15_collapse_to_base_right_halfcell_removes_cell.
+
+Theorem C15_collapse_to_base_right_halfcell_keeps_wf2 `{Sig} : forall E n ks pe e ne c w cnt w' cnt',
+  wf2 n w -> pe < n -> pe <> e -> pe <> ne -> e <> ne -> e <> 0 -> ne <> 0 ->
+  beta w 1 e = pe -> beta w 1 pe = ne -> beta w 1 ne = e ->
+  beta w 2 ne = 0 -> beta w 2 e = 0 ->
+  run E (collapse_halfcell_to_base n ks pe e ne) c w cnt = (Done tt, w', cnt') ->
+  wf2 n w'.
+Proof. exact halfcell_to_base_boundary_mirror_wf. Qed.
+Print Assumptions C15_collapse_to_base_right_halfcell_keeps_wf2.
+
+(** Non-vacuity: in the unit square above (triangles 1 -> 2 -> 3 and 4 -> 5 -> 6 glued along 3 | 4), once the diagonal
+    is unsewn -- the store the driver hands to the right half-cell -- the call (b1r, r, b0r) = (5, 4, 6) meets the
+    mirrored premises: 4 -> 5 -> 6 -> 4, and 6, 4 and 5 are all 2-free (x = 0). *)
+Definition c15_square_unsewn (i d : N) : N := if i =? 2 then 0 else c15_square i d.
+Example C15_right_halfcell_premises :
+  let f := c15_square_unsewn in let x := f 2 5 in
+  NoDup [5; 4; 6; x] /\ f 1 4 = 5 /\ f 1 5 = 6 /\ f 1 6 = 4 /\ f 2 6 = 0 /\ f 2 4 = 0 /\ x = 0.
+Proof.
+  cbv zeta. repeat split; try discriminate; try reflexivity.
+  cbn. repeat (constructor; [cbn; intros Q; repeat (destruct Q as [Q|Q]; [discriminate Q|]); exact Q|]). constructor.
+Qed.
+
 (** The two half-cell routines of the edge collapse -- the programs the four collapse theorems above are about -- are,
     verbatim, what tools/tr_kern.py regenerates from remeshing/collapse.rs on every run: an edit of either routine
     changes Map2/GenKern.v and this theorem stops compiling. *)
